@@ -1,6 +1,7 @@
 package rules
 
 import (
+	"go/constant"
 	"fmt"
 	"go/token"
 	"strings"
@@ -16,7 +17,7 @@ func init() {
 		Explanation: "PATH/typestate rules on system.Dialer: R-C11-1 after every fn(ctx,dctx) the cleanup closure of the same DialContext runs exactly once before the next init or any return and its error is returned; " +
 			"R-C11-2 every socket obtained from ndp.Listen/dialNDP/rtnetlink.Dial is, on every return path, returned, captured by the returned cleanup closure, closed or deferred-closed; " +
 			"R-C11-3 the cleanup closure leaves the group, closes, then restores autoconf on every path; R-C11-4 autoconf get precedes disable, restore writes the value read, restore closure returned iff disable did not fail fatally, tolerated-error table; " +
-			"R-C11-5 who may call State.SetIPv6Autoconf / write DialContext.done R-C11-6 the sysctl helpers return the os error as is or %w-wrapped, so the restore closure's tolerance tests can see it.",
+			"R-C11-5 who may call State.SetIPv6Autoconf / write DialContext.done R-C11-6 the sysctl helpers return the os error as is or %w-wrapped, so the restore closure's tolerance tests can see it; R-C11-7 (linux) the autoconf getter and setter address exactly the \"autoconf\" sysctl key and return the helper's result untouched.",
 		Assumptions: []string{
 			"Go type checker and go/ssa construction are correct",
 			"(*ndp.Conn).Close releases the socket and its multicast memberships",
@@ -59,6 +60,7 @@ func runC11(c *Ctx) {
 	c11Autoconf(c)
 	c11WhoMay(c)
 	c11SysctlCause(c)
+	c11AutoconfKey(c)
 }
 
 // c11SysctlCause (R-C11-6): the restore closure tolerates permission-denied
@@ -66,7 +68,9 @@ func runC11(c *Ctx) {
 // State.SetIPv6Autoconf. On linux that error comes from os.WriteFile/ReadFile
 // through the sysctl helpers: they return it as is or wrapped with %w, never
 // flattened into text.
-func c11SysctlCause(c *Ctx) {
+func c11SysctlCause(c *Ctx) { sysctlCause(c, "R-C11-6") }
+
+func sysctlCause(c *Ctx, rule string) {
 	n := 0
 	for _, name := range []string{"sysctlEnable", "sysctlBool", "setIPv6Autoconf", "getIPv6Autoconf", "getIPv6Forwarding"} {
 		f := c.P.Func("internal/system", name)
@@ -74,7 +78,7 @@ func c11SysctlCause(c *Ctx) {
 			continue // linux only
 		}
 		fn := c.fname(f)
-		for _, p := range c.pathsO("R-C11-6", f, an.PathOpts{}) {
+		for _, p := range c.pathsO(rule, f, an.PathOpts{}) {
 			if p.Ret == nil {
 				continue
 			}
@@ -102,12 +106,12 @@ func c11SysctlCause(c *Ctx) {
 				})
 			}
 			n++
-			c.R.Check(okRes, "R-C11-6", fn+":cause-kept-in-chain", fn, c.pos(p.Ret.Pos()), "returns "+res.String(),
+			c.R.Check(okRes, rule, fn+":cause-kept-in-chain", fn, c.pos(p.Ret.Pos()), "returns "+res.String(),
 				"the os error is returned as is or wrapped with %w", "permission-denied / vanished-interface failures are no longer recognised: a tolerated restore failure becomes fatal")
 		}
 	}
 	if c.P.Cfg.GOOS == "linux" {
-		c.R.Check(n >= 3, "R-C11-6", "system:sysctl-error-returns", "", "", fmt.Sprintf("%d failing return path(s)", n), ">= 3", "anchor-missing")
+		c.R.Check(n >= 3, rule, "system:sysctl-error-returns", "", "", fmt.Sprintf("%d failing return path(s)", n), ">= 3", "anchor-missing")
 	}
 }
 
@@ -704,4 +708,74 @@ func handsOver(e *an.Expr, rs string) bool {
 		}
 	}
 	return false
+}
+
+
+// c11AutoconfKey (R-C11-7, linux): the value setAutoconf saves and the value
+// it writes back are the same kernel setting: getIPv6Autoconf reports exactly
+// sysctlBool(sysctl(iface, "autoconf")) and setIPv6Autoconf writes exactly
+// sysctlEnable(iface, "autoconf", enable); neither consults another key or
+// file. (A getter that folds accept_ra into its answer makes the restore write
+// back a value the setting never had.)
+func c11AutoconfKey(c *Ctx) {
+	if c.P.Cfg.GOOS != "linux" {
+		return
+	}
+	for _, name := range []string{"getIPv6Autoconf", "setIPv6Autoconf"} {
+		f := c.needFunc("R-C11-7", "internal/system", name)
+		if f == nil {
+			continue
+		}
+		fn := c.fname(f)
+		nKey, bad := 0, ""
+		isKey := func(v ssa.Value) bool {
+			k, ok := v.(*ssa.Const)
+			return ok && k.Value != nil && k.Value.Kind() == constant.String && constant.StringVal(k.Value) == "autoconf"
+		}
+		for _, g := range an.WithAnon(f) {
+			for _, ci := range an.CallsIn(g) {
+				cc := ci.Common()
+				switch {
+				case an.CallIs(cc, PkgSystem, "", "sysctl"):
+					if len(cc.Args) == 2 && isKey(cc.Args[1]) {
+						nKey++
+					} else {
+						bad = "sysctl() is asked for another key at " + c.pos(ci.Pos())
+					}
+				case an.CallIs(cc, PkgSystem, "", "sysctlEnable"):
+					if len(cc.Args) == 3 && isKey(cc.Args[1]) {
+						nKey++
+					} else {
+						bad = "sysctlEnable() writes another key at " + c.pos(ci.Pos())
+					}
+				case an.CallIs(cc, PkgSystem, "", "sysctlBool"):
+					// its argument is the path built from the key above
+					arg := c.XO.Of(cc.Args[0])
+					if !(arg.Op == an.OpCall && arg.Fn != nil && c.fname(arg.Fn) == "system.sysctl") {
+						bad = "sysctlBool() reads " + arg.String()
+					}
+				default:
+					if fo := an.CalleeObj(cc); fo != nil && fo.Pkg() != nil && (fo.Pkg().Path() == "os" || fo.Pkg().Path() == "io/ioutil") {
+						bad = "direct file access " + fo.FullName() + " at " + c.pos(ci.Pos())
+					}
+				}
+			}
+		}
+		// the result is that call's result, untouched
+		for _, r := range an.Returns(f) {
+			for i, res := range r.Results {
+				e := c.XO.Of(res)
+				b, _ := stripExtract(e)
+				if b == nil {
+					b = e
+				}
+				isHelper := b.Op == an.OpCall && b.Fn != nil && (c.fname(b.Fn) == "system.sysctlBool" || c.fname(b.Fn) == "system.sysctlEnable")
+				if !isHelper {
+					bad = fmt.Sprintf("result #%d is %s", i, shortExpr(e))
+				}
+			}
+		}
+		c.R.Check(nKey == 1 && bad == "", "R-C11-7", fn+":autoconf-key-only", fn, c.pos(f.Pos()), fmt.Sprintf("%d use(s) of the \"autoconf\" key; %s", nKey, bad),
+			"the autoconf getter and setter address net.ipv6.conf.<if>.autoconf and nothing else, and pass the helper's result through", "the value saved before disabling is not the value of the setting that is written back")
+	}
 }
